@@ -239,8 +239,8 @@ def gen_history(rng, binfo, tier="quick", long=False):
         k = str(rng.choice(kinds, p=weights))
         registered_users = [t for t in users if held(t)]
         if k == "register":
-            v = str(rng.choice(["valid", "dup-builtin", "dup-user", "inconsistent", "invalid-symbol", "again", "padded"],
-                               p=[0.52, 0.08, 0.08, 0.13, 0.08, 0.06, 0.05]))
+            v = str(rng.choice(["valid", "dup-builtin", "dup-user", "inconsistent", "invalid-symbol", "again", "padded", "reuse-inconsistent", "redefine"],
+                               p=[0.42, 0.07, 0.07, 0.10, 0.07, 0.05, 0.05, 0.13, 0.04]))
             idle = [t for t in users if t in ever_ok and not held(t)]  # accepted earlier, currently unregistered
             free = [s for s in pool if s not in m.E]
             new_tok = "u%d" % len(users)
@@ -249,6 +249,48 @@ def gen_history(rng, binfo, tier="quick", long=False):
                     continue
                 op = dict(users[str(rng.choice(registered_users))])  # identical re-registration of a registered class: idempotent
                 op["variant"] = "again"
+            elif v == "reuse-inconsistent":
+                # the SAME class object that was accepted before comes back with an equation contradicting its _impedance,
+                # optionally after remove_elements / reset, under its old symbol or another free one: must be refused
+                if not ever_ok:
+                    continue
+                tok = str(rng.choice(sorted(ever_ok)))
+                after = str(rng.choice(["nothing", "remove", "reset"]))
+                if after == "remove" and held(tok):
+                    m.remove([tok])
+                    ops.append({"op": "remove", "toks": [tok], "form": str(rng.choice(["single", "list"]))})
+                elif after == "reset" and held(tok):
+                    d = bool(rng.integers(0, 2))
+                    m.reset(True, d)
+                    ops.append({"op": "reset", "elements": True, "default_parameters": d, "form": "kw"})
+                elif not held(tok):
+                    after = "unregistered-earlier"
+                old_sym = users[tok]["symbol"].strip()
+                free = [s for s in pool if s not in m.E]
+                if held(tok):
+                    symkind = "same" if rng.random() < 0.6 or not free else "other"
+                    sym = held(tok)[0] if symkind == "same" else str(rng.choice(free))
+                else:
+                    symkind = "same" if old_sym not in m.E and rng.random() < 0.6 else "other"
+                    sym = old_sym if symkind == "same" else (str(rng.choice([s for s in free if s != old_sym])) if [s for s in free if s != old_sym] else None)
+                    if sym is None:
+                        sym, symkind = (old_sym, "same") if old_sym not in m.E else (None, None)
+                    if sym is None:
+                        continue
+                op = new_def(tok, sym, eq=str(rng.choice(["re", "im", "both"])))
+                if op["eq"] == "good":
+                    continue
+                op["variant"] = "reuse-inconsistent:" + op["eq"]
+                op["after"] = after
+                op["symkind"] = symkind
+            elif v == "redefine":
+                # still-registered class, same symbol, same private flag, changed but consistent definition (either outcome accepted)
+                if not registered_users:
+                    continue
+                tok = str(rng.choice(registered_users))
+                op = new_def(tok, held(tok)[0])
+                op["private"] = users[tok]["private"]
+                op["variant"] = "redefine"
             elif v == "dup-builtin":
                 op = new_def(new_tok, str(rng.choice(bsyms)))
                 op["variant"] = "dup-builtin"
@@ -685,7 +727,7 @@ class _History:
         if sym and VALID_SYMBOL.match(sym) and sym not in self.used_symbols:
             self.used_symbols.append(sym)
         rkey = (op["tmpl"], json.dumps(op["params"], sort_keys=True), op["eq"])
-        if op["variant"].split(":")[0] in ("valid", "inconsistent", "padded") and rkey not in ex.ratio_seen:
+        if op["variant"].split(":")[0] in ("valid", "inconsistent", "padded", "reuse-inconsistent", "redefine") and rkey not in ex.ratio_seen:
             ex.ratio_seen.add(rkey)
             r = ex.sympy_ratio(op)
             if op["eq"] == "good":
@@ -706,6 +748,14 @@ class _History:
         expected = self.m.register(op["tok"], op["symbol"], op["ok"], op["private"], op["params"])
         out, val = self.call(ex.register_element, definition, **kwargs)
         variant = op["variant"].split(":")[0]
+        if variant == "reuse-inconsistent":
+            ex.count("pattern:reuse-inconsistent")
+            ex.count("pattern:reuse-inconsistent:after=%s:symbol=%s:eq=%s" % (op.get("after"), op.get("symkind"), op["eq"]))
+        if variant == "redefine":
+            ex.count("pattern:redefine:" + ("accepted" if out == "ok" else "refused"))
+            if out == "raised":  # statement is silent on redefining a registered class: a refusal is accepted, the class stays registered
+                self.m.D[op["tok"]] = {k: float(v) for k, v in cls.get_default_values().items()}
+                return "register-refused"
         if expected and out == "raised":
             self.bad("C15/valid-registration-refused:%s:%s" % (variant, type(val).__name__), "a valid definition (symbol %r, template %s) was refused: %s" % (op["symbol"], op["tmpl"], _tb(val)), step)
         if not expected and out == "ok":
@@ -911,8 +961,8 @@ class _History:
             if set(got) != set(want) or any(not _same(got[k], want[k]) for k in want):
                 if tok in m.D0:
                     mism.append((tok, got, want, all(_same(got.get(k), before_D[tok].get(k)) for k in want)))
-                elif ctx in ("reset", "reset_defaults"):
-                    m.D[tok] = dict(got)  # statement is silent about user-class defaults under reset: accept and follow
+                elif ctx in ("reset", "reset_defaults") or (ctx == "register-refused" and tok == op.get("tok")):
+                    m.D[tok] = dict(got)  # statement is silent about user-class defaults under reset / after a refused redefinition: follow
                 else:
                     self.bad("C15/user-defaults-mismatch:" + ctx, "default values of user class %s are %s, expected %s" % (tok, got, want), step)
         if mism:
